@@ -1,7 +1,10 @@
 package rules
 
 import (
+	"go/token"
+	"go/types"
 	"sort"
+	"strings"
 
 	"golang.org/x/tools/go/ssa"
 
@@ -16,7 +19,9 @@ func checkC04(c *an.Ctx) {
 	c.Rule("C04.3", "in the stage goroutine no synchronisation operation (lock, channel operation, wait) is executed before or around the runner call")
 	c.Rule("C04.4", "one pass visits every node: the launch sits in a range over Nodes() of the scheduled graph and the per-stage loop has no exit other than exhaustion")
 	c.Rule("C04.5", "eligibility is acted on in the pass that sees it (E2 scheduling table): every waiting stage whose condition holds (or is absent) and whose gate says yes is launched on every path of the iteration, and a stage whose condition is false is marked Skipped there and then, before the dependency gate is consulted, so that its dependents become eligible without waiting for unrelated stages")
+	c.Rule("C04.6", "runs do not queue inside the runner (E8): nothing synchronously reachable from TaskRunner.Run takes an exclusive resource held in a field of the runner — a slot of a channel, a mutex — and keeps it until the run is over (a deferred release in Run, or a release behind the job walk): two independent stages would run one after the other although both are Running")
 	c.NotDecided = append(c.NotDecided, "actual overlap in time (OS scheduling)", "the 50 ms pass period")
+	runsDoNotQueue(c, "C04.6")
 	p := c.P
 	_, schedule, _ := scheduleImpl(p)
 	if schedule == nil {
@@ -352,4 +357,103 @@ func slotPerStage(c *an.Ctx, s *sched, snd *ssa.Send) bool {
 		})
 	}
 	return n == 1 && snd.Parent() == s.launchFn && an.Dominates(snd, s.launch)
+}
+
+// runsDoNotQueue: see C04.6.
+func runsDoNotQueue(c *an.Ctx, rule string) {
+	p := c.P
+	run := p.Func("pkg/runner", "TaskRunner", "Run")
+	if run == nil {
+		c.Und(rule, "runner.(*TaskRunner).Run", token.NoPos, "TaskRunner.Run not found")
+		return
+	}
+	reach := p.Reach([]*ssa.Function{run}, func(e an.CallEdge) bool { return e.Kind == an.EdgeCall && inPkgs("pkg/runner")(e.Callee) })
+	isRunnerField := func(v ssa.Value) string {
+		k := groupKey(v)
+		if strings.HasPrefix(k, "TaskRunner.") {
+			return k
+		}
+		return ""
+	}
+	// acquisitions: sends (plain or as a select case) on a channel field of the runner, exclusive locks of a mutex field
+	type acq struct {
+		key string
+		at  ssa.Instruction
+		fn  *ssa.Function
+	}
+	var acqs []acq
+	for fn := range reach {
+		if fn.Blocks == nil {
+			continue
+		}
+		an.EachInstr(fn, func(in ssa.Instruction) {
+			switch x := in.(type) {
+			case *ssa.Send:
+				if k := isRunnerField(x.Chan); k != "" {
+					acqs = append(acqs, acq{k, in, fn})
+				}
+			case *ssa.Select:
+				for _, st := range x.States {
+					if st.Dir == types.SendOnly {
+						if k := isRunnerField(st.Chan); k != "" {
+							acqs = append(acqs, acq{k, in, fn})
+						}
+					}
+				}
+			}
+		})
+		for _, op := range an.BlockingOps(fn) {
+			if op.Kind == "lock" {
+				if k := isRunnerField(op.OnVal); k != "" {
+					// a lock released in its own function is a short section (C03/C12 look at those)
+					op := op
+					if rel, _ := an.OnAllPathsToExit(op.Instr, func(x ssa.Instruction) bool {
+						if _, isDefer := x.(*ssa.Defer); isDefer {
+							return false
+						}
+						return an.IsUnlockOf(x, op)
+					}, an.IsPanicExit); !rel {
+						acqs = append(acqs, acq{k, op.Instr, fn})
+					}
+				}
+			}
+		}
+	}
+	n := 0
+	for _, a := range acqs {
+		// released only when the run is over: a deferred function of Run (or of the acquiring function, when that is
+		// Run itself) gives it back
+		held := false
+		an.EachInstr(run, func(in ssa.Instruction) {
+			d, ok := in.(*ssa.Defer)
+			if !ok {
+				return
+			}
+			for _, callee := range p.Callees(&d.Call) {
+				for g := range p.Reach([]*ssa.Function{callee}, func(e an.CallEdge) bool { return e.Kind == an.EdgeCall && inPkgs("pkg/runner")(e.Callee) }) {
+					if g.Blocks == nil {
+						continue
+					}
+					an.EachInstr(g, func(x ssa.Instruction) {
+						if u, ok := x.(*ssa.UnOp); ok && u.Op == token.ARROW && isRunnerField(u.X) == a.key {
+							held = true
+						}
+						if ci, ok := x.(ssa.CallInstruction); ok {
+							name := an.ShortCallee(ci.Common())
+							if (name == "(*sync.Mutex).Unlock" || name == "(*sync.RWMutex).Unlock") && len(ci.Common().Args) > 0 && isRunnerField(ci.Common().Args[0]) == a.key {
+								held = true
+							}
+						}
+					})
+				}
+			}
+		})
+		if held {
+			n++
+			c.Bad(rule, an.Short(a.fn)+":holds("+a.key+")", a.at.Pos(), "%s takes %s on the way through TaskRunner.Run and gives it back only in a deferred function of Run: every other run that needs it waits until this task's commands are over", an.Short(a.fn), a.key)
+		}
+	}
+	if n == 0 {
+		c.OK(rule, an.Short(run)+":no-queue", run.Pos(), "no exclusive resource of the runner is held from the start of a run to its end (%d acquisitions looked at)", len(acqs))
+	}
 }
